@@ -150,9 +150,6 @@ let () =
           | L [A "addf"; n; A t] -> AddF (cps n, n_of_int (int_of_string t)) | L [A "remf"; n] -> RemF (cps n) | _ -> failwith "op" in
         let so = function ONone -> "none" | OVal v -> show_value v | OFn (d, t) -> "fn" ^ show_str d ^ "#" ^ string_of_int (int_of_n t) | OUnit -> "unit" in
         let ops' = List.map op ops and qs' = List.map cps qs in
-        let sigma n = List.exists (fun c -> int_of_n c = 931) n in
-        let names = qs' @ List.concat_map (function AddV (n, _) -> [n] | RemV n -> [n] | AddF (n, _) -> [n] | RemF n -> [n] | ClrV -> []) ops' in
-        if List.exists sigma names then Printf.printf "%s UNMODELLED(final-sigma)\n" id else
         let res = run_ops empty_env ops' qs' in
         let line (((out, vs), fs), lst) =
           so out ^ "|" ^ String.concat "," (List.map so vs) ^ "|" ^ String.concat "," (List.map so fs) ^ "|" ^
@@ -204,7 +201,17 @@ let () =
             (match u with [x] when int_of_n x = c -> () | _ -> (if Buffer.length bu > 0 then Buffer.add_char bu ','); Buffer.add_string bu (Printf.sprintf "%d>%s" c (show u)))
           end
         done;
-        Printf.printf "%s R=L:%s;U:%s\n" id (Buffer.contents bl) (Buffer.contents bu)
+        let ranges p =
+          let out = Buffer.create 1024 and start = ref (-1) and first = ref true in
+          let emit a b = (if not !first then Buffer.add_char out ','); first := false; Buffer.add_string out (Printf.sprintf "%d-%d" a b) in
+          for c = lo to hi do
+            let v = (c < 0xD800 || c > 0xDFFF) && p (n_of_int c) in
+            if v && !start < 0 then start := c
+            else if (not v) && !start >= 0 then begin emit !start (c - 1); start := -1 end
+          done;
+          if !start >= 0 then emit !start hi;
+          Buffer.contents out in
+        Printf.printf "%s R=L:%s;U:%s;C:%s;I:%s\n" id (Buffer.contents bl) (Buffer.contents bu) (ranges u_cased) (ranges u_ignorable)
     | L (A k :: A id :: _) -> Printf.printf "%s NOMODEL:%s\n" id k
     | _ -> failwith "case"
   done with End_of_file -> ()
